@@ -216,6 +216,15 @@ func decodeString(src *bufio.Reader, noQuotes bool) []byte {
 	length := decodeIntAdditionalType(src, minor)
 	len := int(length)
 	pbs := readNBytes(src, len)
+	if !noQuotes {
+		// Between quotes a byte string needs the same JSON escaping as a
+		// text string.
+		for i := 0; i < len; i++ {
+			if pbs[i] < 0x20 || pbs[i] > 0x7e || pbs[i] == '\\' || pbs[i] == '"' {
+				return append(decodeStringComplex(result, string(pbs), uint(i)), '"')
+			}
+		}
+	}
 	result = append(result, pbs...)
 	if noQuotes {
 		return result
